@@ -426,8 +426,13 @@ Definition w_replace : list op := [ODelete 2; OCreateDir 2].
 Definition w_loop : list op := [ONewDir [112]%N 0 (Some 10); ONewDir [113]%N 5 (Some 11); OAdjust [112]%N 6 5].
 (* a versioned file in a new unversioned directory (ValueError before 4df7934, resolved since) *)
 Definition w_unv : list op := [ONewDir [112]%N 0 None; ONewFile [102]%N 5 [70]%N (Some 12) None].
-(* the same inside a parent loop: the fabricated id needs the final path *)
+(* the same inside a parent loop of two NEW directories (RecursionError between 4df7934 and 3ace332; now the
+   directory gets its id and the loop itself raises KeyError: known finding C14-resolve-keyerror) *)
 Definition w_unv_loop : list op := [ONewDir [112]%N 0 None; ONewDir [113]%N 5 (Some 11); OAdjust [112]%N 6 5].
+(* an unversioned TREE directory with a versioned child, moved into itself: resolved since 3ace332 *)
+Definition w_base_u : list bnode :=
+  [root_node; mkB 0 [117]%N KDir [] false None; mkB 0 [98]%N KFile [66]%N false (Some 4)].
+Definition w_unv_selfloop : list op := [OAdjust [98]%N 1 2; OAdjust [117]%N 1 1].
 (* a child below a file that was versioned in this transform *)
 Definition w_dupkey : list op := [ONewFile [107]%N 0 [75]%N (Some 14) None; ONewFile [99]%N 5 [67]%N (Some 15) None].
 (* a duplicate name, resolved by "Moved existing file to" *)
